@@ -517,14 +517,14 @@ fn c17_expand_4() {
 // ===========================================================================================
 // C20: the Pattern-trait searcher over an ARBITRARY deterministic engine (feature "pattern")
 // ===========================================================================================
-#[cfg(feature = "pattern")]
-mod c20 {
+mod eng {
     use super::super::*;
     use crate::classicalbacktrack::MatchAttempter;
     use crate::cursor::Direction;
     use crate::indexing::InputIndexer;
     use crate::insn::{CompiledRegex, Insn, StartPredicate};
     use crate::types::IP;
+    #[cfg(feature = "pattern")]
     use core::str::pattern::{Pattern, ReverseSearcher, SearchStep, Searcher};
 
     const NMAX: usize = 3;
@@ -647,11 +647,12 @@ mod c20 {
         }
     }
 
-    // @verif props=C20 tier=quick builds=pattern sub=c20 timeout=3000 unwind=15 bound="haystack <= 3 symbolic scalars, arbitrary engine table, next() until Done (<= 2*chars+4 steps)" funcs="RegexSearcher::next,Regex::find_from,<&Regex as Pattern>::into_searcher,exec::Matches::next,BacktrackExecutor::next_match"
+    // @verif props=C20 tier=quick builds=pattern sub=eng timeout=3000 unwind=15 bound="haystack <= 3 symbolic scalars, arbitrary engine table, next() until Done (<= 2*chars+4 steps)" funcs="RegexSearcher::next,Regex::find_from,<&Regex as Pattern>::into_searcher,exec::Matches::next,BacktrackExecutor::next_match"
     // @verif stubs="MatchAttempter::try_at_pos -> arbitrary deterministic table END[offset]"
     #[kani::proof]
     #[kani::unwind(15)]
     #[kani::stub(crate::classicalbacktrack::MatchAttempter::try_at_pos, stub_try_at_pos)]
+    #[cfg(feature = "pattern")]
     fn c20_searcher_forward() {
         let hy = any_hay();
         let text: &str = unsafe { core::str::from_utf8_unchecked(&hy.buf[..hy.len]) };
@@ -705,11 +706,12 @@ mod c20 {
         core::mem::forget(re);
     }
 
-    // @verif props=C20 tier=quick builds=pattern sub=c20 timeout=3000 unwind=15 bound="haystack <= 3 symbolic scalars, arbitrary engine table, next_back() until Done" funcs="RegexSearcher::next_back,find_last_match_before,Regex::find_from"
+    // @verif props=C20 tier=quick builds=pattern sub=eng timeout=3000 unwind=15 bound="haystack <= 3 symbolic scalars, arbitrary engine table, next_back() until Done" funcs="RegexSearcher::next_back,find_last_match_before,Regex::find_from"
     // @verif stubs="MatchAttempter::try_at_pos -> arbitrary deterministic table END[offset]"
     #[kani::proof]
     #[kani::unwind(15)]
     #[kani::stub(crate::classicalbacktrack::MatchAttempter::try_at_pos, stub_try_at_pos)]
+    #[cfg(feature = "pattern")]
     fn c20_searcher_backward() {
         let hy = any_hay();
         let text: &str = unsafe { core::str::from_utf8_unchecked(&hy.buf[..hy.len]) };
@@ -749,5 +751,107 @@ mod c20 {
         assert!(done);
         kani::cover!(done && hy.n >= 2, "finished on a two-character haystack");
         core::mem::forget(re);
+    }
+
+    // C17-H2: replace_all / replace_all_with / replace / replace_with are splices over the find_iter
+    // sequence.  Engine = arbitrary deterministic table; replacement = the constant "#".
+    fn c17_splice_body(all: bool, template: bool) {
+        let hy = any_hay();
+        let text: &str = unsafe { core::str::from_utf8_unchecked(&hy.buf[..hy.len]) };
+        any_oracle(&hy);
+        let re = mk_regex();
+        let got = match (all, template) {
+            (true, true) => re.replace_all(text, "#"),
+            (true, false) => re.replace_all_with(text, |_m| String::from("#")),
+            (false, true) => re.replace(text, "#"),
+            (false, false) => re.replace_with(text, |_m| String::from("#")),
+        };
+        // model: copy unmatched bytes, '#' per match, over the lastIndex sequence
+        let mut want = [0u8; 20];
+        let mut wl = 0usize;
+        let mut copied = 0usize; // haystack bytes consumed so far
+        let mut cursor: Option<usize> = Some(0);
+        let mut nm = 0usize;
+        let mut k = 0;
+        while k < NMAX + 2 {
+            let m = match cursor {
+                None => None,
+                Some(c) => model_first(&hy, c),
+            };
+            if let Some((s, e)) = m {
+                if all || nm == 0 {
+                    let mut i = copied;
+                    while i < s {
+                        want[wl] = hy.buf[i];
+                        wl += 1;
+                        i += 1;
+                    }
+                    want[wl] = b'#';
+                    wl += 1;
+                    copied = e;
+                    nm += 1;
+                }
+                cursor = if e != s { Some(e) } else { next_boundary_after(&hy, e) };
+            } else {
+                cursor = None;
+            }
+            k += 1;
+        }
+        let mut i = copied;
+        while i < hy.len {
+            want[wl] = hy.buf[i];
+            wl += 1;
+            i += 1;
+        }
+        let gb = got.as_bytes();
+        assert!(gb.len() == wl, "spliced result has the wrong length");
+        let mut i = 0;
+        while i < 20 {
+            if i < wl {
+                assert!(gb[i] == want[i], "spliced result differs from the model");
+            }
+            i += 1;
+        }
+        kani::cover!(nm >= 2, "two replacements");
+        kani::cover!(nm == 0 && hy.len > 0, "no match: haystack returned unchanged");
+        kani::cover!(nm == 1 && wl == hy.len + 1, "a single empty match");
+        core::mem::forget(got);
+        core::mem::forget(re);
+    }
+
+    // @verif props=C17 tier=quick sub=eng timeout=3000 unwind=15 bound="replace_all with a constant template over a haystack of <= 3 symbolic scalars and an arbitrary engine table" funcs="Regex::replace_all,find_iter,exec::Matches::next,expand_replacement"
+    // @verif stubs="MatchAttempter::try_at_pos -> arbitrary deterministic table END[offset]"
+    #[kani::proof]
+    #[kani::unwind(15)]
+    #[kani::stub(crate::classicalbacktrack::MatchAttempter::try_at_pos, stub_try_at_pos)]
+    fn c17_splice_replace_all() {
+        c17_splice_body(true, true);
+    }
+
+    // @verif props=C17 tier=quick sub=eng timeout=3000 unwind=15 bound="replace_all_with (constant closure), haystack <= 3 symbolic scalars, arbitrary engine table" funcs="Regex::replace_all_with,find_iter"
+    // @verif stubs="MatchAttempter::try_at_pos -> arbitrary deterministic table END[offset]"
+    #[kani::proof]
+    #[kani::unwind(15)]
+    #[kani::stub(crate::classicalbacktrack::MatchAttempter::try_at_pos, stub_try_at_pos)]
+    fn c17_splice_replace_all_with() {
+        c17_splice_body(true, false);
+    }
+
+    // @verif props=C17 tier=quick sub=eng timeout=3000 unwind=15 bound="replace (first match only), haystack <= 3 symbolic scalars, arbitrary engine table" funcs="Regex::replace,find"
+    // @verif stubs="MatchAttempter::try_at_pos -> arbitrary deterministic table END[offset]"
+    #[kani::proof]
+    #[kani::unwind(15)]
+    #[kani::stub(crate::classicalbacktrack::MatchAttempter::try_at_pos, stub_try_at_pos)]
+    fn c17_splice_replace() {
+        c17_splice_body(false, true);
+    }
+
+    // @verif props=C17 tier=thorough sub=eng timeout=3000 unwind=15 bound="replace_with (first match only, constant closure)" funcs="Regex::replace_with,find"
+    // @verif stubs="MatchAttempter::try_at_pos -> arbitrary deterministic table END[offset]"
+    #[kani::proof]
+    #[kani::unwind(15)]
+    #[kani::stub(crate::classicalbacktrack::MatchAttempter::try_at_pos, stub_try_at_pos)]
+    fn c17_splice_replace_with() {
+        c17_splice_body(false, false);
     }
 }
